@@ -253,6 +253,10 @@ class ArithImposed(Contract):
                             modes = MODES if tier == 'thorough' and x[1] <= 4 and y[1] <= 4 else [MODES[k % len(MODES)]]
                             for rule, mode in modes:
                                 yield dict(op=op, x=list(x), y=list(y), policy=policy, target=None, method=method, rule=rule, mode=mode)
+                            if k % 12 == 0:
+                                # operands that are shallow copies (copy() / .T share status and configuration with their base)
+                                rule, mode = modes[0]
+                                yield dict(op=op, x=list(x), y=list(y), policy=policy, target=None, method=method, rule=rule, mode=mode, xder='copy')
                             if method == 'raw' and policy == 'same' and (i + j) % 3 == 0:
                                 # a class-wide Config.template with OTHER modes is installed while the operation runs: the result
                                 # still carries the first operand's configuration
@@ -312,8 +316,12 @@ class ArithImposed(Contract):
         if tgt is not None:
             out = make_fxp(P, tgt[1], tgt[2], tgt[3], codes=[0], shape=(), cfg=gov, status=inp.get('st_out'), vdtype=float)
             xcfg[{'out': 'op_out', 'out_like': 'op_out_like', 'array_out': 'array_op_out', 'array_out_like': 'array_op_out_like'}[tgt[0]]] = out
-        x = make_fxp(P, sx, wx, fx, codes=inp['cx'], shape=(), cfg=xcfg, status={'inaccuracy': inp['ix']}, vdtype=int if (cfg.get('vint') and fx <= 0) else float)
-        y = make_fxp(P, sy, wy, fy, codes=inp['cy'], shape=(), cfg=dict(other), status={'inaccuracy': inp['iy']}, vdtype=int if (cfg.get('vint') and fy <= 0) else float)
+        if cfg.get('xder'):
+            x = derived_fxp(P, cfg['xder'], sx, wx, fx, inp['cx'], (), cfg=xcfg, status={'inaccuracy': inp['ix']}, vdtype=float)
+            y = derived_fxp(P, cfg['xder'], sy, wy, fy, inp['cy'], (), cfg=dict(other), status={'inaccuracy': inp['iy']}, vdtype=float)
+        else:
+            x = make_fxp(P, sx, wx, fx, codes=inp['cx'], shape=(), cfg=xcfg, status={'inaccuracy': inp['ix']}, vdtype=int if (cfg.get('vint') and fx <= 0) else float)
+            y = make_fxp(P, sy, wy, fy, codes=inp['cy'], shape=(), cfg=dict(other), status={'inaccuracy': inp['iy']}, vdtype=int if (cfg.get('vint') and fy <= 0) else float)
         bx, by = dict(x.__dict__), dict(y.__dict__)
         vx0, vy0 = list(elems(x.val)), list(elems(y.val))
         if cfg.get('cfg_template'):
